@@ -21,6 +21,7 @@ package jsonld
 import (
 	"bytes"
 	"fmt"
+	"strings"
 
 	"github.com/nuts-foundation/nuts-node/core"
 	"github.com/nuts-foundation/nuts-node/jsonld/log"
@@ -76,8 +77,52 @@ func AllFieldsDefined(DocumentLoader ld.DocumentLoader, inputJSON []byte) error 
 	options.SafeMode = true
 
 	// expand with safe mode enabled, which asserts that all properties are defined in the JSON-LD context.
-	if _, err = processor.Expand(document, options); err != nil {
+	expanded, err := processor.Expand(document, options)
+	if err != nil {
 		return fmt.Errorf("jsonld: %w", err)
+	}
+	// Safe mode of the expansion algorithm does not detect everything that is dropped when converting to RDF.
+	return nothingDroppedInRDF(expanded)
+}
+
+// nothingDroppedInRDF returns an error if the expanded JSON-LD document contains something that is (silently) dropped when converting it to RDF,
+// meaning it would not be protected by a signature over the canonicalized document:
+// - node identifiers (@id) that are not absolute (relative IRIs are dropped, including everything that refers to them),
+// - malformed node identifiers and properties (IRIs),
+// - literals with a malformed language tag or datatype.
+func nothingDroppedInRDF(expanded interface{}) error {
+	const errFormat = "jsonld: %s '%s' is dropped when converting to RDF"
+	switch node := expanded.(type) {
+	case []interface{}:
+		for _, element := range node {
+			if err := nothingDroppedInRDF(element); err != nil {
+				return err
+			}
+		}
+	case map[string]interface{}:
+		if _, isValueObject := node["@value"]; isValueObject {
+			language, _ := node["@language"].(string)
+			datatype, _ := node["@type"].(string)
+			if language != "" && ld.InvalidNode(ld.NewLiteral("", "", language)) {
+				return fmt.Errorf(errFormat, "literal with invalid language", language)
+			}
+			if datatype != "" && ld.InvalidNode(ld.NewLiteral("", datatype, "")) {
+				return fmt.Errorf(errFormat, "literal with invalid datatype", datatype)
+			}
+			// don't descend into the literal value (could be a JSON literal)
+			return nil
+		}
+		if id, isString := node["@id"].(string); isString && (!ld.IsAbsoluteIri(id) || ld.InvalidNode(ld.NewIRI(id))) {
+			return fmt.Errorf(errFormat, "node with relative or invalid @id", id)
+		}
+		for key, value := range node {
+			if !strings.HasPrefix(key, "@") && ld.InvalidNode(ld.NewIRI(key)) {
+				return fmt.Errorf(errFormat, "invalid property", key)
+			}
+			if err := nothingDroppedInRDF(value); err != nil {
+				return err
+			}
+		}
 	}
 	return nil
 }
